@@ -185,6 +185,7 @@ def run(ctx):
     ctx.ob('C01.4', emit, 'single-advance', ok, 'the seq cell is advanced at %d site(s); exactly one, on every path, outside loops' % len(adv_blocks),
            line=adv_blocks[0][1] if adv_blocks else emit.line)
     c015(ctx)
+    c017(ctx)
 
 
 # ---------------------------------------------------------------------- C01.5 seq cell typestate
@@ -342,3 +343,57 @@ def c015(ctx):
                    sum(len(v) for v in cons.values()), len(advs), len(seen), 'use / advance alternate on every path' if not errors else '; '.join(sorted(set(errors.values())))),
                line=(advs.get(next(iter(errors))[1]) or f.blocks[next(iter(errors))[1]]['t'].get('ln') or f.line) if errors else f.line)
     ctx.floor('C01.5', 'frame constructions from a seq cell', total, 12)
+
+
+# ---------------------------------------------------------------------- C01.7 write-back of the local seq copy
+def c017(ctx):
+    """run_session copies the kernel's seq into a local, lends `&mut seq` to the tool runner /
+    checkpoint / provider code, and must write it back (Session::set_seq) before the kernel
+    emits its own next frame — explored in the flag-correlated state space of C07.2."""
+    from .c07 import run_session_states
+    P = ctx.prog
+    ctx.rule('C01.7', 'seq write-back: in run_session every call that receives `&mut seq` (the local copy of the kernel session seq) is followed, on every feasible path into the kernel next_event loop, by Session::set_seq(seq) — otherwise the kernel re-issues the seqs the tool / checkpoint frames already used.')
+    st = run_session_states(P)
+    rs, seen, kh, kbody, succ_states = st['rs'], st['seen'], st['kh'], st['kbody'], st['succ_states']
+    ctx.touch(rs)
+    setters = {s.bb for s in rs.calls(r'^rip_kernel::Session::set_seq$')}
+    lenders = []
+    for s in rs.sites():
+        if s.callee.startswith('rip_kernel::Session::'):
+            continue
+        for a in s.args:
+            o = rs.origin(a)
+            # `&mut seq` handed to a callee, directly or inside a context struct
+            cands = [a]
+            if o[0] == 'rv' and o[1]['k'] == 'agg':
+                cands = o[1]['a']
+            for c in cands:
+                pl = op_place(c)
+                if pl is None or not rs.lty(pl['l']).startswith('&mut u64'):
+                    continue
+                oo = rs.origin(c)
+                if oo[0] == 'local' and rs.lname(oo[1]) == 'seq' and rs.lty(oo[1]) == 'u64':
+                    lenders.append(s)
+    lenders = list({s.bb: s for s in lenders}.values())
+    ctx.floor('C01.7', 'calls lending `&mut seq` in run_session', len(lenders), 4)
+    for s in lenders:
+        starts = [x for x in seen if x[0] == s.bb]
+        bad = False
+        visited = set()
+        work = list(starts)
+        while work and not bad:
+            x = work.pop()
+            if x in visited:
+                continue
+            visited.add(x)
+            b = x[0]
+            if b in setters and b != s.bb:
+                continue
+            for y in succ_states(*x):
+                if y[0] == kh and b not in kbody:
+                    bad = True
+                    break
+                work.append(y)
+        ctx.ob('C01.7', rs, 'seq-written-back:' + s.name, not bad,
+               '%s borrows the local seq; %s' % (s.name, 'every feasible path into the kernel loop passes Session::set_seq' if not bad else
+                                                  'the kernel next_event loop is reachable WITHOUT Session::set_seq: the kernel repeats seqs already used'), line=s.line)
